@@ -405,6 +405,24 @@ pub mod verif_hooks {
         }
     }
 
+    /// Calls the dialing step of the relay client's connection builder for `url`: directly, or
+    /// through `proxy_url` (TCP dial of the proxy, then the `CONNECT` tunnel). Returns whether
+    /// the resulting stream is proxied.
+    pub async fn dial_url(
+        url: Url,
+        dns_resolver: DnsResolver,
+        proxy_url: Option<Url>,
+        prefer_ipv6: bool,
+        tls_config: rustls::ClientConfig,
+    ) -> Result<bool, DialError> {
+        let tls_connector: tokio_rustls::TlsConnector = Arc::new(tls_config.clone()).into();
+        let builder = super::MaybeTlsStreamBuilder::new(url, dns_resolver, tls_config)
+            .prefer_ipv6(prefer_ipv6)
+            .proxy_url(proxy_url);
+        let stream = builder.dial_url(&tls_connector).await?;
+        Ok(matches!(stream, super::ProxyStream::Proxied(_)))
+    }
+
     /// Calls the relay dialer: resolves `url` and races TCP connections, Happy Eyeballs style.
     pub async fn dial_happy_eyeballs(
         dns_resolver: &DnsResolver,
